@@ -12,7 +12,7 @@ from vlib.par import pmap
 from bounded.common import Suite, FmtStr, Chunk, cells
 from spec.terminal import Terminal, BLANK, show, selftest_against_pyte, pyte_new, pyte_load, compare_with_pyte
 
-LEVEL = "exploration"
+LEVEL = "proof"
 ASSUMPTIONS = [
     "the terminal is the reference model spec/terminal.py (xterm semantics: last-column flag, EL/ED erase from the cursor cell, "
     "back-colour-erase, alternate screen without scrollback); in thorough it is cross-checked against pyte on random escape streams "
@@ -133,7 +133,7 @@ def run_history(case, second=False):
             rows = [mkrow(r) for r in rowspecs]
             array = fsarray(rows) if kind == "fsarray" else rows
             want = [cells(array[k]) for k in range(len(array))]
-            scrolls0 = term.scrolls
+            scrolls0, wraps0 = term.scrolls, term.wraps
             try:
                 w.render_to_terminal(array, tuple(cur))
             except Exception as e:
@@ -151,7 +151,7 @@ def run_history(case, second=False):
             if term.screen != exp:
                 bad = [r for r in range(H) if term.screen[r] != exp[r]]
                 fail("C02.screen", i, f"{what}: screen shows {show(term.screen)} but the array (part that fits) is {show(exp)} "
-                     f"- rows {bad} differ" + (f" ({term.wraps} characters were written past the right margin)" if term.wraps else ""))
+                     f"- rows {bad} differ" + (f" ({term.wraps - wraps0} character(s) were written past the right margin and wrapped)" if term.wraps != wraps0 else ""))
                 return res
             if term.cursor != tuple(cur):
                 fail("C02.cursor", i, f"{what}: cursor is at {term.cursor}")
@@ -352,7 +352,20 @@ def _collect(s, check, results, stats):
             check.engine_error(f"C02: reference terminal and pyte disagree ({d}) | case {c}")
 
 
+def deductive(check, tier):
+    """tier 2 (DESIGN 9/C02): the real render_to_terminal re-establishes screen == array and the cache/screen invariant from
+    ANY state satisfying the invariant -> every history of renders and resizes, by induction"""
+    import contracts.fullscreen as FS
+    from pyvc.verify import verify
+    verify(FS.fs_render, tier, check)
+    check.assume("deductive layer: blessed capabilities at row granularity (move addresses the cursor; a line's string written at column 0 "
+                 "overwrites len(line) cells; clear_eol / clear_bol erase to the end / start of the row); BaseWindow.height/width (1-line "
+                 "properties returning self.t.height/width) are modelled as fields; array rows are lines of single-column characters identified "
+                 "with their terminal strings (FmtStr.__eq__, C19; str(), C01; slicing, C06; FSArray row slices, C04)")
+
+
 def run(check, tier, seed):
+    deductive(check, tier)
     thorough = tier == "thorough"
     if thorough:
         # the reference model itself against pyte on random escape streams (disagreement = harness problem, never a violation)
